@@ -23,7 +23,7 @@ NAMES = ['step started', 'step ended', 'event consumed', 'event sent', 'state ex
          'transition processed', 'note']
 LEVELS = {
     'quick': [
-        {'name': 'L1-N3-M1-K2', 'N': 3, 'M': 1, 'K': 2, 'budget_s': 60},
+        {'name': 'L1-N3-M1-K2', 'N': 3, 'M': 1, 'K': 2, 'budget_s': 100},
         {'name': 'L2-N3-M2-K1-bco', 'N': 3, 'M': 2, 'K': 1, 'kinds': 'bco', 'budget_s': 90},
         {'name': 'L3-N4-M1-K1-bco', 'N': 4, 'M': 1, 'K': 1, 'kinds': 'bco', 'budget_s': 90},
     ],
